@@ -352,6 +352,39 @@ def run(ctx):
                         "ops": [["sync", [["/other/x", "k3"]]], ["sync", [[p1, "k1"]]], ["sync", [[p2, "k2"]]]]}, "kf": None})
             finally:
                 shutil.rmtree(tmp, ignore_errors=True)
+    # one commit of several paths of which a later one cannot be stored (it names a directory that holds longer paths): whatever
+    # the store answers, a path committed earlier - also one that this very commit re-points - still resolves, to the key it had or
+    # to the key of this commit; a path that the commit does not mention is left alone
+    for order in ("repointed_first", "failing_first"):
+        for wrap in (False, True):
+            tmp = tempfile.mkdtemp(prefix="ddsverif_c08_")
+            try:
+                st = LocalFileStore(tmp + "/i", tmp + "/d")
+                if wrap:
+                    st = _LRU(st, num_elem=2)
+                for k in ("k0", "k1", "k2", "k3"):
+                    st.store_blob(k, "v" + k, None)
+                o0 = apply_op(st, ["sync", [["/reports/summary", "k1"], ["/reports/other", "k1"]]], DDSException)
+                o1 = apply_op(st, ["sync", [["/models/v1/weights", "k0"]]], DDSException)
+                batch = [["/reports/summary", "k2"], ["/models/v1", "k3"]]
+                if order == "failing_first":
+                    batch = batch[::-1]
+                o2 = apply_op(st, ["sync", batch], DDSException)
+                got = {}
+                for pth in ("/reports/summary", "/reports/other", "/models/v1/weights"):
+                    r = apply_op(st, ["fetch_paths", [pth]], DDSException)
+                    got[pth] = dict(r["paths"]).get(pth) if isinstance(r, dict) else r
+                res.evaluations += 1
+                res.count("commits_that_fail_half_way")
+                res.nontrivial("half-way commit %s %s" % (order, wrap))
+                if (o0 != "unit" or o1 != "unit" or got["/reports/summary"] not in ("k1", "k2") or got["/reports/other"] != "k1"
+                        or (got["/models/v1/weights"] != "k0" and o2 != "unit")):
+                    res.violations.append({"what": "a commit of %s (answer: %s) on a store where /reports/summary -> k1, /reports/other -> k1 and /models/v1/weights -> k0 "
+                                                   "are committed leaves %s" % (batch, o2, got),
+                                           "input": {"store": "local+cache" if wrap else "local",
+                                                     "ops": [["sync", [["/reports/summary", "k1"], ["/reports/other", "k1"]]], ["sync", [["/models/v1/weights", "k0"]]], ["sync", batch]]}, "kf": None})
+            finally:
+                shutil.rmtree(tmp, ignore_errors=True)
     if ctx["driver_ok"]:
         ans = common.drv_batch(reqs)
         for rq, m, a in zip(reqs, meta, ans):
